@@ -122,7 +122,7 @@ Definition forget (x : strm) : strm :=
 
 (* ---- the connection *)
 Inductive frame := FHeaders (s : Z) | FData (s : Z) (d : list N) | FEnd (s : Z) | FRst (s : Z).
-Inductive stpc := TTop | TWaiting | TExited | TCrashed.
+Inductive stpc := TTop | TWaiting | TExited.
 
 Record st := {
   strms : Z -> strm;
@@ -134,34 +134,43 @@ Record st := {
   iw : Z;                  (* h2: the peer's SETTINGS_INITIAL_WINDOW_SIZE *)
   task : stpc;             (* the send task *)
   out : list frame;        (* frames written, oldest first *)
-  bad_pick : bool          (* the priority oracle returned something outside its contract *)
+  bad_pick : bool;         (* the priority oracle returned something outside its contract *)
+  reader_ok : bool         (* false once an exception would have escaped the reader's event handling *)
 }.
 
 Definition init (cw mf iw0 : Z) : st :=
   {| strms := fun _ => strm_none; ids := []; has_data := false; closed := false; cwin := cw; maxf := mf;
-     iw := iw0; task := TTop; out := []; bad_pick := false |}.
+     iw := iw0; task := TTop; out := []; bad_pick := false; reader_ok := true |}.
 
 Definition upd (f : Z -> strm) (s : Z) (x : strm) : Z -> strm := fun k => if k =? s then x else f k.
 
 Definition with_strms (t : st) (f : Z -> strm) : st :=
   {| strms := f; ids := ids t; has_data := has_data t; closed := closed t; cwin := cwin t; maxf := maxf t;
-     iw := iw t; task := task t; out := out t; bad_pick := bad_pick t |}.
+     iw := iw t; task := task t; out := out t; bad_pick := bad_pick t; reader_ok := reader_ok t |}.
 Definition with_strm (t : st) (s : Z) (x : strm) : st := with_strms t (upd (strms t) s x).
 Definition with_has_data (t : st) (v : bool) : st :=
   {| strms := strms t; ids := ids t; has_data := v; closed := closed t; cwin := cwin t; maxf := maxf t;
-     iw := iw t; task := task t; out := out t; bad_pick := bad_pick t |}.
+     iw := iw t; task := task t; out := out t; bad_pick := bad_pick t; reader_ok := reader_ok t |}.
 Definition with_task (t : st) (v : stpc) : st :=
   {| strms := strms t; ids := ids t; has_data := has_data t; closed := closed t; cwin := cwin t; maxf := maxf t;
-     iw := iw t; task := v; out := out t; bad_pick := bad_pick t |}.
+     iw := iw t; task := v; out := out t; bad_pick := bad_pick t; reader_ok := reader_ok t |}.
 Definition with_cwin (t : st) (v : Z) : st :=
   {| strms := strms t; ids := ids t; has_data := has_data t; closed := closed t; cwin := v; maxf := maxf t;
-     iw := iw t; task := task t; out := out t; bad_pick := bad_pick t |}.
+     iw := iw t; task := task t; out := out t; bad_pick := bad_pick t; reader_ok := reader_ok t |}.
 Definition emit (t : st) (f : frame) : st :=
   {| strms := strms t; ids := ids t; has_data := has_data t; closed := closed t; cwin := cwin t; maxf := maxf t;
-     iw := iw t; task := task t; out := (out t ++ [f])%list; bad_pick := bad_pick t |}.
+     iw := iw t; task := task t; out := (out t ++ [f])%list; bad_pick := bad_pick t; reader_ok := reader_ok t |}.
 Definition with_bad (t : st) : st :=
   {| strms := strms t; ids := ids t; has_data := has_data t; closed := closed t; cwin := cwin t; maxf := maxf t;
-     iw := iw t; task := task t; out := out t; bad_pick := true |}.
+     iw := iw t; task := task t; out := out t; bad_pick := true; reader_ok := reader_ok t |}.
+
+Definition reader_crash (t : st) : st :=
+  {| strms := strms t; ids := ids t; has_data := has_data t; closed := closed t; cwin := cwin t; maxf := maxf t;
+     iw := iw t; task := task t; out := out t; bad_pick := bad_pick t; reader_ok := false |}.
+Definition add_id (t : st) (s : Z) : st :=
+  {| strms := strms t; ids := if existsb (Z.eqb s) (ids t) then ids t else s :: ids t; has_data := has_data t;
+     closed := closed t; cwin := cwin t; maxf := maxf t; iw := iw t; task := task t; out := out t;
+     bad_pick := bad_pick t; reader_ok := reader_ok t |}.
 
 Definition eligible (x : strm) : bool := s_tree x && negb (s_blocked x).
 
@@ -231,9 +240,9 @@ Definition chunk_size (t : st) (x : strm) : Z := Z.max 0 (Z.min (Z.min (s_win x)
 Definition send_data (t : st) (s : Z) : st :=
   let x := strms t s in
   if negb (s_h2open x) then
-    (* h2 raises StreamClosedError: force-close and forget the buffer *)
-    if s_inbufs x then with_strm t s (forget (force_close x)) else with_task t TCrashed
-  else if negb (s_inbufs x) then with_task t TCrashed                   (* KeyError inside the handler *)
+    (* h2 raises StreamClosedError: force-close the buffer if there is one, forget the stream *)
+    with_strm t s (forget (if s_inbufs x then force_close x else x))
+  else if negb (s_inbufs x) then with_strm t s (forget x)        (* KeyError: the same handler *)
   else
     let '(data, b) := sb_pop (s_buf x) (chunk_size t x) in
     let x1 := set_buf x b in
@@ -271,46 +280,69 @@ Inductive cev :=
 | CConnWin (n : Z)                     (* WINDOW_UPDATE on the connection *)
 | CInitialWindow (n : Z)               (* SETTINGS_INITIAL_WINDOW_SIZE := n *)
 | CReset (s : Z)                       (* RST_STREAM *)
+| CPriority (s dep : Z)                (* PRIORITY (also for idle and closed streams); dep = 0: no parent *)
+| CData (s : Z)                        (* DATA on a request body *)
+| CEnded (s : Z)                       (* END_STREAM of the request *)
 | CEof.                                (* the connection is lost: Closed *)
 
 Definition map_strms (t : st) (g : strm -> strm) : st := with_strms t (fun k => g (strms t k)).
 
+(* priority.unblock(s): MissingStreamError if s is not in the tree (not caught by the reader) *)
+Definition unblock_or_crash (t : st) (s : Z) : st :=
+  let x := strms t s in
+  if s_inbufs x then (if s_tree x then with_strm t s (set_blocked x false) else reader_crash t) else t.
+
 Definition unblock_all (t : st) : st :=
-  map_strms t (fun x => if s_inbufs x then set_blocked x false else x).
+  let t1 := map_strms t (fun x => if s_inbufs x then set_blocked x false else x) in
+  if existsb (fun s => s_inbufs (strms t s) && negb (s_tree (strms t s))) (ids t) then reader_crash t1 else t1.
 
 Definition client_step (t : st) (c : cev) : st :=
   if closed t then t      (* the reader has left its loop *)
   else
   match c with
   | COpen s prog =>
-      if s_created (strms t s) then t      (* h2 rejects the reuse of a stream id *)
+      let old := strms t s in
+      if s_created old then t      (* h2 rejects the reuse of a stream id *)
       else
-      let x := {| s_buf := sbuf_new; s_inbufs := true; s_live := true; s_tree := true; s_blocked := true;
+      let x := {| s_buf := sbuf_new; s_inbufs := true; s_live := true; s_tree := true;
+                  s_blocked := if s_tree old then s_blocked old else true;   (* DuplicateStreamError: left as it is *)
                   s_win := iw t; s_h2open := true; s_pc := PReady; s_prog := prog; s_pushed := [];
                   s_forced := false; s_created := true |} in
-      let t1 := with_strm t s x in
-      {| strms := strms t1; ids := s :: ids t1; has_data := has_data t1; closed := closed t1; cwin := cwin t1;
-         maxf := maxf t1; iw := iw t1; task := task t1; out := out t1; bad_pick := bad_pick t1 |}
+      add_id (with_strm t s x) s
   | CWin s n =>
       let x := strms t s in
-      let x1 := set_win x (s_win x + n) in
-      with_has_data (with_strm t s (if s_inbufs x1 then set_blocked x1 false else x1)) true
+      with_has_data (unblock_or_crash (with_strm t s (set_win x (s_win x + n))) s) true
   | CConnWin n => with_has_data (unblock_all (with_cwin t (cwin t + n))) true
   | CInitialWindow n =>
       let d := n - iw t in
       let t1 := map_strms t (fun x => if s_h2open x then set_win x (s_win x + d) else x) in
       let t2 := {| strms := strms t1; ids := ids t1; has_data := true; closed := closed t1; cwin := cwin t1;
-                   maxf := maxf t1; iw := n; task := task t1; out := out t1; bad_pick := bad_pick t1 |} in
+                   maxf := maxf t1; iw := n; task := task t1; out := out t1; bad_pick := bad_pick t1;
+                   reader_ok := reader_ok t1 |} in
       unblock_all t2
   | CReset s =>
       let t1 := close_stream (with_strm t s (set_h2open (strms t s) false)) s in
       let x := strms t1 s in
-      let x1 := if s_inbufs x then set_blocked (force_close x) false else x in
-      with_has_data (with_strm t1 s x1) true
+      let t2 := if s_inbufs x then with_strm t1 s (force_close x) else t1 in
+      with_has_data (unblock_or_crash t2 s) true
+  | CPriority s dep =>
+      (* reprioritize / insert_stream; a parent that is not in the tree is inserted, blocked *)
+      let ins (t : st) (k : Z) : st :=
+        let x := strms t k in
+        if s_tree x then t
+        else add_id (with_strm t k
+               {| s_buf := s_buf x; s_inbufs := s_inbufs x; s_live := s_live x; s_tree := true; s_blocked := true;
+                  s_win := s_win x; s_h2open := s_h2open x; s_pc := s_pc x; s_prog := s_prog x;
+                  s_pushed := s_pushed x; s_forced := s_forced x; s_created := s_created x |}) k in
+      let t1 := if dep =? 0 then t else ins t dep in
+      with_has_data (ins t1 s) true
+  | CData s => t        (* handed to the stream if it is still there (KeyError tolerated), acknowledged *)
+  | CEnded s => t
   | CEof =>
       let t1 := map_strms t (fun x => let y := set_live x false in if s_inbufs y then force_close y else y) in
       {| strms := strms t1; ids := ids t1; has_data := true; closed := true; cwin := cwin t1;
-         maxf := maxf t1; iw := iw t1; task := task t1; out := out t1; bad_pick := bad_pick t1 |}
+         maxf := maxf t1; iw := iw t1; task := task t1; out := out t1; bad_pick := bad_pick t1;
+         reader_ok := reader_ok t1 |}
   end.
 
 (* ---- the transition system *)
